@@ -63,7 +63,9 @@ class Oracle:
             if not g.started and tok[0] != "send":
                 opts = ["raise_same"]           # throw()/close() on an unstarted generator runs no code
             elif closing:
-                opts = ["raise_same", "return"]  # well-behaved: does not yield while being closed (precondition)
+                # does not yield while being closed (precondition); it may re-raise, finish, or raise something else
+                # from its own cleanup code
+                opts = ["raise_same", "return", "raise"]
             else:
                 opts = ["yield", "return", "raise"]
                 if tok[0] == "throw":
